@@ -69,16 +69,30 @@ Record source := mkSource {
 
 Definition is_empty (s : str) : bool := match s with [] => true | _ => false end.
 
-(* fetchArtifactType on the repaired tree: the manifest's artifactType, for
-   image manifests falling back to the config media type (same rule as
-   registry.Referrers and the distribution spec); indexes carry artifactType too. *)
+(* fetchArtifactType, interpreted from the table tools/gosrc2v re-reads from its source on every
+   run (Generated/GC03.v fetchArtifactType_rules): per media type case a list of steps
+   (guard field, returned field); the first step whose guard field is non-empty -- or whose guard
+   is "" -- gives the result; no case (default) = "".  A field is named by its selector path
+   below the decoded manifest.  On the repaired tree this is: artifactType, for image manifests
+   falling back to the config media type (the rule of registry.Referrers and the distribution
+   spec); indexes carry artifactType too (Proofs: fetch_artifact_type_table). *)
+Definition field_of (s : source) (id : nat) (name : str) : str :=
+  if str_eqb name (b "ArtifactType") then s_mat s id
+  else if str_eqb name (b "Config.MediaType") then s_mcfg s id
+  else [].
+
+Fixpoint eval_rule (s : source) (id : nat) (steps : list (str * str)) : str :=
+  match steps with
+  | [] => []
+  | (g, f) :: rest =>
+    if (is_empty g || negb (is_empty (field_of s id g)))%bool then field_of s id f
+    else eval_rule s id rest
+  end.
+
 Definition fetch_artifact_type (s : source) (id : nat) : str :=
-  if negb (in_cases fetchArtifactType_cases (s_kind s id)) then [] else   (* default: "" *)
-  match s_kind s id with
-  | KArtifact => s_mat s id
-  | KImage => if is_empty (s_mat s id) then s_mcfg s id else s_mat s id
-  | KIndex => s_mat s id
-  | _ => []
+  match find (fun c => kind_eqb (s_kind s id) (kind_of_selector (fst c))) fetchArtifactType_rules with
+  | Some c => eval_rule s id (snd c)
+  | None => []
   end.
 
 (* which media types make FilterArtifactType fetch the manifest *)
@@ -166,6 +180,11 @@ Definition step_gen fill (s : source) (acc : bool * list desc) (f : filter) : bo
 Definition find_preds_gen fill (s : source) (fs : list filter) (id : nat) : list desc :=
   snd (fold_left (step_gen fill s) fs (true, s_preds s id)).
 
+(* the caller set opts.FindPredecessors = custom before calling the filters: every filter takes
+   the generic branch (fp != nil), the ReferrerLister shortcut is never used *)
+Definition find_preds_custom (s : source) (custom : nat -> list desc) (fs : list filter) (id : nat) : list desc :=
+  snd (fold_left (step_gen fill_at s) fs (false, custom id)).
+
 Definition find_preds := find_preds_gen fill_at.
 Definition find_preds_prefix := find_preds_gen fill_at_prefix.
 
@@ -240,4 +259,222 @@ Fixpoint resolve_tag (r : str) (tags : list (str * nat)) : option nat :=
   match tags with
   | [] => None
   | (k, v) :: t => if str_eqb r k then Some v else resolve_tag r t
+  end.
+
+(* ------------------------------------------------------------------ failing source operations
+   Every call into the source made while finding roots is one operation, in program order:
+   src.Predecessors(cur) (or, for the first filter on a ReferrerLister, rf.Referrers(cur)), then
+   -- filter by filter, predecessor by predecessor -- the src.Fetch of fetchArtifactType /
+   fetchAnnotations for a descriptor that lacks the field.  [k] is a countdown: 0 = no fault
+   armed, k > 0 = the k-th operation from now returns an error.  findRoots and the filters
+   return the first error unchanged (newCopyError("FindPredecessors", ...)). *)
+
+Definition tick (k : nat) : option nat :=
+  match k with O => Some O | S O => None | S k' => Some k' end.
+
+Inductive result := ROk (roots : list desc) | RErr | RFuel.
+
+(* the generic loop of a filter: `for _, p := range predecessors { fetch if missing; if keep(p) ... }` *)
+Fixpoint filter_e (need_fetch : desc -> bool) (fill : desc -> desc) (keep : desc -> bool)
+         (ps : list desc) (k : nat) : option (list desc * nat) :=
+  match ps with
+  | [] => Some ([], k)
+  | p :: ps' =>
+    match (if need_fetch p then tick k else Some k) with
+    | None => None
+    | Some k1 =>
+      match filter_e need_fetch fill keep ps' k1 with
+      | None => None
+      | Some (kept, k2) => let p' := fill p in Some (if keep p' then p' :: kept else kept, k2)
+      end
+    end
+  end.
+
+Definition needs_at_fetch (s : source) (p : desc) : bool :=
+  (is_empty (d_at p) && at_fetch_kind (s_kind s (d_id p)))%bool.
+
+Definition needs_ann_fetch (s : source) (p : desc) : bool :=
+  match d_ann p with None => ann_fetch_kind (s_kind s (d_id p)) | Some _ => false end.
+
+Definition apply_filter_e (s : source) (f : filter) (ps : list desc) (k : nat) : option (list desc * nat) :=
+  match f with
+  | FArt None => Some (ps, k)
+  | FArt (Some re) => filter_e (needs_at_fetch s) (fill_at s) (fun p => re (d_at p)) ps k
+  | FAnn key re => filter_e (needs_ann_fetch s) (fill_ann s) (keep_ann key re) ps k
+  end.
+
+(* state: (fp still nil, predecessors so far, countdown) *)
+Definition step_e (s : source) (acc : option (bool * list desc * nat)) (f : filter)
+  : option (bool * list desc * nat) :=
+  match acc with
+  | None => None
+  | Some (first, ps, k) =>
+    if is_noop f then acc
+    else if (first && s_lister s)%bool then Some (false, apply_lister f ps, k)
+    else match apply_filter_e s f ps k with
+         | None => None
+         | Some (ps', k') => Some (false, ps', k')
+         end
+  end.
+
+(* opts.FindPredecessors(cur) with the countdown: the listing itself is the first operation *)
+Definition find_preds_e (s : source) (fs : list filter) (id : nat) (k : nat) : option (list desc * nat) :=
+  match tick k with
+  | None => None
+  | Some k1 =>
+    match fold_left (step_e s) fs (Some (true, s_preds s id, k1)) with
+    | None => None
+    | Some (_, ps, k2) => Some (ps, k2)
+    end
+  end.
+
+Fixpoint dfs_e (fuel : nat) (s : source) (fs : list filter) (limit : Z)
+         (stack : list frame) (visited : list nat) (roots : list desc) (k : nat) : result :=
+  match fuel with
+  | O => RFuel
+  | S fuel' =>
+    match stack with
+    | [] => ROk roots
+    | (cur, d) :: rest =>
+      if mem (d_id cur) visited then dfs_e fuel' s fs limit rest visited roots k
+      else
+        let visited' := d_id cur :: visited in
+        if ((0 <? limit)%Z && (Z.of_nat d =? limit)%Z)%bool
+        then dfs_e fuel' s fs limit rest visited' (add_root cur roots) k
+        else match find_preds_e s fs (d_id cur) k with
+             | None => RErr
+             | Some ([], k') => dfs_e fuel' s fs limit rest visited' (add_root cur roots) k'
+             | Some (ps, k') => dfs_e fuel' s fs limit (push_preds ps (S d) visited' rest) visited' roots k'
+             end
+    end
+  end.
+
+Definition find_roots_e (fuel : nat) (s : source) (fs : list filter) (limit : Z) (node : desc) (k : nat) : result :=
+  dfs_e fuel s fs limit [(node, O)] [] [] k.
+
+(* ------------------------------------------------------------------ the call sequence
+   The same loop, also recording on which nodes opts.FindPredecessors was called, in call order
+   (an intermediate observable: the harness records the calls that reach the source). *)
+Fixpoint dfs_log (fuel : nat) (fp : nat -> list desc) (limit : Z)
+         (stack : list frame) (visited : list nat) (roots : list desc) (calls : list nat)
+  : option (list desc * list nat) :=
+  match fuel with
+  | O => None
+  | S fuel' =>
+    match stack with
+    | [] => Some (roots, rev calls)
+    | (cur, d) :: rest =>
+      if mem (d_id cur) visited then dfs_log fuel' fp limit rest visited roots calls
+      else
+        let visited' := d_id cur :: visited in
+        if ((0 <? limit)%Z && (Z.of_nat d =? limit)%Z)%bool
+        then dfs_log fuel' fp limit rest visited' (add_root cur roots) calls
+        else match fp (d_id cur) with
+             | [] => dfs_log fuel' fp limit rest visited' (add_root cur roots) (d_id cur :: calls)
+             | ps => dfs_log fuel' fp limit (push_preds ps (S d) visited' rest) visited' roots (d_id cur :: calls)
+             end
+    end
+  end.
+
+Definition find_roots_log (fuel : nat) (s : source) (fs : list filter) (limit : Z) (node : desc) :=
+  dfs_log fuel (find_preds s fs) limit [(node, O)] [] [] [].
+
+(* ------------------------------------------------------------------ the loop with the depth arithmetic
+   re-read from findRoots (Generated/GC03.v findRoots_start_depth / findRoots_stop /
+   findRoots_push_depth): this is the version the extracted runner executes; Proofs/FindRoots.v
+   dfs_log_g_eq shows it is dfs_log (and breaks when the source's arithmetic changes). *)
+Fixpoint dfs_log_g (fuel : nat) (fp : nat -> list desc) (limit : Z)
+         (stack : list frame) (visited : list nat) (roots : list desc) (calls : list nat)
+  : option (list desc * list nat) :=
+  match fuel with
+  | O => None
+  | S fuel' =>
+    match stack with
+    | [] => Some (roots, rev calls)
+    | (cur, d) :: rest =>
+      if mem (d_id cur) visited then dfs_log_g fuel' fp limit rest visited roots calls
+      else
+        let visited' := d_id cur :: visited in
+        if findRoots_stop limit (Z.of_nat d)
+        then dfs_log_g fuel' fp limit rest visited' (add_root cur roots) calls
+        else match fp (d_id cur) with
+             | [] => dfs_log_g fuel' fp limit rest visited' (add_root cur roots) (d_id cur :: calls)
+             | ps => dfs_log_g fuel' fp limit
+                       (push_preds ps (Z.to_nat (findRoots_push_depth limit (Z.of_nat d))) visited' rest)
+                       visited' roots (d_id cur :: calls)
+             end
+    end
+  end.
+
+Definition find_roots_run (fuel : nat) (fp : nat -> list desc) (limit : Z) (node : desc) :=
+  dfs_log_g fuel fp limit [(node, Z.to_nat findRoots_start_depth)] [] [] [].
+
+(* ------------------------------------------------------------------ the filters with the decisions
+   re-read from FilterAnnotation / FilterArtifactType (Generated/GC03.v *_keep, *_fetch_guard):
+   the version the extracted runner executes; Proofs/FindRoots.v find_preds_g_eq shows it is
+   find_preds (and breaks when a keep closure or a fetch guard of the source changes). *)
+Definition keep_ann_g (key : str) (re : option (str -> bool)) (p : desc) : bool :=
+  let ov := match d_ann p with
+            | None => (false, [])                 (* value, ok := nilmap[key] *)
+            | Some m => match lookup key m with None => (false, []) | Some v => (true, v) end
+            end in
+  filterAnnotation_keep (fst ov)
+    (match re with None => true | Some _ => false end)
+    (match re with Some f => f (snd ov) | None => false end).
+
+Definition keep_at_g (re : str -> bool) (p : desc) : bool :=
+  filterArtifactType_keep true false (re (d_at p)).
+
+Definition fill_at_g (s : source) (p : desc) : desc :=
+  if filterArtifactType_fetch_guard (is_empty (d_at p)) then
+    if at_fetch_kind (s_kind s (d_id p)) then mkDesc (d_id p) (fetch_artifact_type s (d_id p)) (d_ann p) else p
+  else p.
+
+Definition fill_ann_g (s : source) (p : desc) : desc :=
+  if filterAnnotation_fetch_guard (match d_ann p with None => true | Some _ => false end) then
+    if ann_fetch_kind (s_kind s (d_id p))
+    then mkDesc (d_id p) (d_at p) (Some (fetch_annotations s (d_id p))) else p
+  else p.
+
+Definition apply_filter_g (s : source) (f : filter) (ps : list desc) : list desc :=
+  match f with
+  | FArt None => ps
+  | FArt (Some re) => List.filter (keep_at_g re) (map (fill_at_g s) ps)
+  | FAnn key re => List.filter (keep_ann_g key re) (map (fill_ann_g s) ps)
+  end.
+
+Definition apply_lister_g (f : filter) (ps : list desc) : list desc :=
+  match f with
+  | FArt None => ps
+  | FArt (Some re) => List.filter (keep_at_g re) ps
+  | FAnn key re => List.filter (keep_ann_g key re) ps
+  end.
+
+Definition step_g (s : source) (acc : bool * list desc) (f : filter) : bool * list desc :=
+  if is_noop f then acc
+  else if (fst acc && s_lister s)%bool then (false, apply_lister_g f (snd acc))
+  else (false, apply_filter_g s f (snd acc)).
+
+Definition find_preds_g (s : source) (fs : list filter) (id : nat) : list desc :=
+  snd (fold_left (step_g s) fs (true, s_preds s id)).
+
+Definition find_preds_custom_g (s : source) (custom : nat -> list desc) (fs : list filter) (id : nat) : list desc :=
+  snd (fold_left (step_g s) fs (false, custom id)).
+
+(* ------------------------------------------------------------------ ExtendedCopy with its error origins
+   Resolve (source) -> findRoots ("FindPredecessors", source) -> copy of the roots -> Tag
+   (destination): the first failing step is the error that is returned (newCopyError op/origin). *)
+Inductive xop := OpResolve | OpFindPredecessors | OpCopy | OpTag.
+Inductive xresult := XOk (node : desc) (tags : list (str * nat)) | XErr (op : xop).
+
+Definition extended_copy_x (resolve : str -> option desc) (roots_ok copy_ok tag_ok : bool)
+           (src_ref dst_ref : str) (tags : list (str * nat)) : xresult :=
+  let dst_ref' := if is_empty dst_ref then src_ref else dst_ref in
+  match resolve src_ref with
+  | None => XErr OpResolve
+  | Some node =>
+    if negb roots_ok then XErr OpFindPredecessors
+    else if negb copy_ok then XErr OpCopy
+    else if negb tag_ok then XErr OpTag
+    else XOk node ((dst_ref', d_id node) :: tags)
   end.
